@@ -39,6 +39,11 @@ func (g *Grl) ReceiveRuleEntry(entry *RuleEntry) error {
 	if g.RuleEntries == nil {
 		g.RuleEntries = make(map[string]*RuleEntry)
 	}
+	if entry.WhenScope == nil || entry.WhenScope.Expression == nil || entry.ThenScope == nil || entry.ThenScope.ThenExpressionList == nil {
+		// the parser gave up inside this rule (e.g. the text ends right after the rule keyword)
+
+		return fmt.Errorf("rule entry %s is incomplete", entry.RuleName)
+	}
 	if _, ok := g.RuleEntries[entry.RuleName]; ok {
 
 		return fmt.Errorf("duplicate rule entry %s", entry.RuleName)
